@@ -1,4 +1,4 @@
-#[cfg(flounder_verif)]
+#[cfg(all(flounder_verif, not(test)))]
 use crate::verif_seam::std_shim as std;
 use crate::moves::Move;
 use std::time::{Duration, Instant};
